@@ -12,11 +12,12 @@ import (
 
 type intrinsic func(in *Interp, fr *frame, args []Value) Value
 
-var intrinsics map[string]intrinsic
-var harnessIntrinsics map[string]intrinsic
+var intrinsics = map[string]intrinsic{}
+var nativeMethods = map[string]intrinsic{}
+var harnessIntrinsics = map[string]intrinsic{}
 
 func init() {
-	harnessIntrinsics = map[string]intrinsic{
+	for k, v := range map[string]intrinsic{
 		"verif_nondet_bool": func(in *Interp, fr *frame, a []Value) Value { return in.nondet("bool", WBool) },
 		"verif_nondet_u8":   func(in *Interp, fr *frame, a []Value) Value { return in.nondet("u8", 8) },
 		"verif_nondet_u16":  func(in *Interp, fr *frame, a []Value) Value { return in.nondet("u16", 16) },
@@ -88,7 +89,13 @@ func init() {
 			return nil
 		},
 		"verif_guarded": func(in *Interp, fr *frame, a []Value) Value {
-			in.guarded[a[0].(*Value)] = a[1].(*Value)
+			unwrap := func(v Value) *Value {
+				if i, ok := v.(Iface); ok {
+					v = i.v
+				}
+				return v.(*Value)
+			}
+			in.guarded[unwrap(a[0])] = unwrap(a[1])
 			return nil
 		},
 		"verif_concrete": func(in *Interp, fr *frame, a []Value) Value {
@@ -151,9 +158,9 @@ func init() {
 			in.nowOverride = a[0].(*Term)
 			return nil
 		},
+	} {
+		harnessIntrinsics[k] = v
 	}
-
-	intrinsics = map[string]intrinsic{}
 	registerSync()
 	registerTime()
 	registerMisc()
@@ -1308,7 +1315,7 @@ func (in *Interp) nativeMethod(fr *frame, name string, args []Value) Value {
 	return nil
 }
 
-var nativeMethods = map[string]intrinsic{}
+
 
 func (in *Interp) hasMethod(t types.Type, name string) bool {
 	ms := in.prog.MethodSets.MethodSet(t)
